@@ -291,10 +291,27 @@ fn random_case(seed: u64, i: u64) -> Case {
     Case { k: "rnd", w, h, ice, cells, sauce: i % 5 == 0, ml: (w as i64) * (w as i64) * (h as i64) <= 120_000 }
 }
 
+/// `--case <replay.json>`: rebuild the buffer of one recorded event and run it again
+fn replay_case(path: &str) -> Case {
+    let text = std::fs::read_to_string(path).unwrap_or_else(|e| { eprintln!("c06: cannot read {path}: {e}"); std::process::exit(2) });
+    let v: Value = serde_json::from_str(&text).unwrap_or(Value::Null);
+    let e = if v["event"].is_object() { &v["event"] } else { &v };
+    let k = match e["k"].as_str().unwrap_or("") { "exh3" => "exh3", "exh2" => "exh2", _ => "rnd" };
+    Case { k, w: e["w"].as_i64().unwrap_or(1) as i32, h: e["h"].as_i64().unwrap_or(1) as i32, ice: e["ice"].as_u64().unwrap_or(0) == 1,
+           cells: e["src"].as_array().map(|a| a.iter().map(|n| n.as_u64().unwrap_or(0) as u32).collect()).unwrap_or_default(),
+           sauce: e["sauce"].as_u64().unwrap_or(0) == 1, ml: true }
+}
+
 pub fn c06(a: &Args) {
     let prefix = a.str("out", "work/C06/trace");
     let shards = a.usize("shards", 4).max(1);
     let seed = a.u64("seed", 0);
+    if a.has("case") {
+        let mut sink = Sink { outs: vec![Out::create(&format!("{prefix}-0.ndjson"))], bytes: vec![0], id: 0, font1: second_font(), rows: Default::default() };
+        sink.emit(&replay_case(&a.str("case", "")));
+        sink.outs[0].flush();
+        return;
+    }
     let thorough = a.str("tier", "quick") == "thorough";
     let full3 = a.usize("full3", if thorough { 5 } else { 4 });     // widths <= full3: every row of the 3x3x2 class
     let canon3 = a.usize("canon3", 7);                                // widths full3 < w <= canon3: canonical representatives
